@@ -97,9 +97,25 @@ func main() {
 				fmt.Printf("instrument: %s: mutable package-level variables: %v\n", filepath.Dir(paths[0]), ns)
 			}
 		}
+		var allVars map[string]bool
+		if len(paths) > 0 && globalsMode[filepath.Clean(filepath.Dir(paths[0]))] {
+			allVars = allGlobals(files)
+		}
 		for i, f := range files {
 			touches := len(mutable) > 0 && mentionsAny(f, mutable)
-			if !force && !needsRewrite(f) && !touches {
+			marks := len(allVars) > 0 && mentionsAny(f, allVars)
+			if !force && !needsRewrite(f) && !touches && !marks {
+				continue
+			}
+			if marks {
+				// before the yields, so that a yield ends up in front of the marks of the same statement
+				if insertVarMarks(f, f.Name.Name, allVars) > 0 {
+					astutil.AddImport(fset, f, "vsched")
+				} else {
+					marks = false
+				}
+			}
+			if !force && !needsRewrite(f) && !touches && !marks {
 				continue
 			}
 			if touches {
@@ -259,6 +275,243 @@ func mutableGlobals(files []*ast.File) map[string]bool {
 		}
 	}
 	return mut
+}
+
+// allGlobals returns the names of all package-level variables.
+func allGlobals(files []*ast.File) map[string]bool {
+	vars := map[string]bool{}
+	for _, f := range files {
+		for _, d := range f.Decls {
+			if gd, ok := d.(*ast.GenDecl); ok && gd.Tok == token.VAR {
+				for _, sp := range gd.Specs {
+					for _, id := range sp.(*ast.ValueSpec).Names {
+						if id.Name != "_" {
+							vars[id.Name] = true
+						}
+					}
+				}
+			}
+		}
+	}
+	return vars
+}
+
+// funcLocals: names declared inside a function (parameters, receiver, :=, var, range) shadow package-level ones
+// (coarse: for the whole function).
+func funcLocals(fd *ast.FuncDecl) map[string]bool {
+	local := map[string]bool{}
+	if fd.Type.Params != nil {
+		for _, p := range fd.Type.Params.List {
+			for _, id := range p.Names {
+				local[id.Name] = true
+			}
+		}
+	}
+	if fd.Type.Results != nil {
+		for _, p := range fd.Type.Results.List {
+			for _, id := range p.Names {
+				local[id.Name] = true
+			}
+		}
+	}
+	if fd.Recv != nil {
+		for _, p := range fd.Recv.List {
+			for _, id := range p.Names {
+				local[id.Name] = true
+			}
+		}
+	}
+	ast.Inspect(fd.Body, func(n ast.Node) bool {
+		switch x := n.(type) {
+		case *ast.AssignStmt:
+			if x.Tok == token.DEFINE {
+				for _, l := range x.Lhs {
+					if id, ok := l.(*ast.Ident); ok {
+						local[id.Name] = true
+					}
+				}
+			}
+		case *ast.ValueSpec:
+			for _, id := range x.Names {
+				local[id.Name] = true
+			}
+		case *ast.RangeStmt:
+			if x.Tok == token.DEFINE {
+				for _, e := range []ast.Expr{x.Key, x.Value} {
+					if id, ok := e.(*ast.Ident); ok {
+						local[id.Name] = true
+					}
+				}
+			}
+		case *ast.FuncLit:
+			if x.Type.Params != nil {
+				for _, p := range x.Type.Params.List {
+					for _, id := range p.Names {
+						local[id.Name] = true
+					}
+				}
+			}
+		}
+		return true
+	})
+	return local
+}
+
+// headVars: the package-level variables (at most two, sorted) that the head of a statement mentions; selector
+// fields (x.name) and composite-literal keys are not references to the variable.
+func headVars(s ast.Stmt, names, local map[string]bool) []string {
+	found := map[string]bool{}
+	ast.Inspect(s, func(x ast.Node) bool {
+		switch y := x.(type) {
+		case *ast.BlockStmt, *ast.FuncLit:
+			return false
+		case *ast.SelectorExpr:
+			// only the receiver side can name a package-level variable of this package
+			ast.Inspect(y.X, func(z ast.Node) bool {
+				if id, ok := z.(*ast.Ident); ok && names[id.Name] && !local[id.Name] {
+					found[id.Name] = true
+				}
+				return true
+			})
+			return false
+		case *ast.KeyValueExpr:
+			ast.Inspect(y.Value, func(z ast.Node) bool {
+				if id, ok := z.(*ast.Ident); ok && names[id.Name] && !local[id.Name] {
+					found[id.Name] = true
+				}
+				return true
+			})
+			return false
+		case *ast.Ident:
+			if names[y.Name] && !local[y.Name] {
+				found[y.Name] = true
+			}
+		}
+		return true
+	})
+	var out []string
+	for k := range found {
+		out = append(out, k)
+	}
+	sort.Strings(out)
+	if len(out) > 2 {
+		out = out[:2]
+	}
+	return out
+}
+
+func varMark(fn, name string) ast.Stmt {
+	return &ast.ExprStmt{X: call(sel("vsched", fn), &ast.BasicLit{Kind: token.STRING, Value: strconv.Quote(name)})}
+}
+
+// insertVarMarks brackets every statement whose head mentions a package-level variable with vsched.VarPre(name) /
+// vsched.VarPost(name) (no-ops unless a harness installed a hook): the points at which a directed schedule can
+// bring the accesses of two threads to one variable next to each other. Compound statements get the closing mark
+// at the start of their bodies as well; statements that end a function (return, panic, branch) get none.
+func insertVarMarks(f *ast.File, pkg string, names map[string]bool) int {
+	inserted := 0
+	for _, d := range f.Decls {
+		fd, ok := d.(*ast.FuncDecl)
+		if !ok || fd.Body == nil || (fd.Recv == nil && fd.Name.Name == "init") {
+			continue
+		}
+		local := funcLocals(fd)
+		var fix func(list []ast.Stmt) []ast.Stmt
+		fix = func(list []ast.Stmt) []ast.Stmt {
+			var out []ast.Stmt
+			for i, s := range list {
+				var vs []string
+				switch s.(type) {
+				case *ast.DeclStmt, *ast.LabeledStmt:
+				default:
+					vs = headVars(s, names, local)
+				}
+				if len(vs) == 0 {
+					out = append(out, s)
+					continue
+				}
+				var pre, post []ast.Stmt
+				for _, v := range vs {
+					pre = append(pre, varMark("VarPre", pkg+"."+v))
+					post = append(post, varMark("VarPost", pkg+"."+v))
+				}
+				out = append(out, pre...)
+				out = append(out, s)
+				inserted += len(pre)
+				last := i == len(list)-1
+				after := true
+				switch x := s.(type) {
+				case *ast.ReturnStmt, *ast.BranchStmt:
+					after = false
+				case *ast.ExprStmt:
+					if c, ok := x.X.(*ast.CallExpr); ok {
+						if id, ok := c.Fun.(*ast.Ident); ok && id.Name == "panic" {
+							after = false
+						}
+					}
+				case *ast.IfStmt:
+					x.Body.List = append(append([]ast.Stmt{}, post...), x.Body.List...)
+					if eb, ok := x.Else.(*ast.BlockStmt); ok {
+						eb.List = append(append([]ast.Stmt{}, post...), eb.List...)
+					}
+					after = !last
+				case *ast.ForStmt:
+					x.Body.List = append(append([]ast.Stmt{}, post...), x.Body.List...)
+					after = !last && x.Cond != nil
+				case *ast.RangeStmt:
+					x.Body.List = append(append([]ast.Stmt{}, post...), x.Body.List...)
+					after = !last
+				case *ast.SwitchStmt:
+					for _, cc := range x.Body.List {
+						c := cc.(*ast.CaseClause)
+						c.Body = append(append([]ast.Stmt{}, post...), c.Body...)
+					}
+					after = !last
+				case *ast.TypeSwitchStmt:
+					for _, cc := range x.Body.List {
+						c := cc.(*ast.CaseClause)
+						c.Body = append(append([]ast.Stmt{}, post...), c.Body...)
+					}
+					after = !last
+				case *ast.SelectStmt:
+					after = false
+				}
+				if after {
+					out = append(out, post...)
+				}
+			}
+			return out
+		}
+		// innermost lists first, so that marks inserted into bodies are not themselves revisited
+		var walk func(n ast.Node)
+		walk = func(n ast.Node) {
+			ast.Inspect(n, func(x ast.Node) bool {
+				switch y := x.(type) {
+				case *ast.BlockStmt:
+					for _, st := range y.List {
+						walk(st)
+					}
+					y.List = fix(y.List)
+					return false
+				case *ast.CaseClause:
+					for _, st := range y.Body {
+						walk(st)
+					}
+					y.Body = fix(y.Body)
+					return false
+				case *ast.CommClause:
+					for _, st := range y.Body {
+						walk(st)
+					}
+					y.Body = fix(y.Body)
+					return false
+				}
+				return true
+			})
+		}
+		walk(fd.Body)
+	}
+	return inserted
 }
 
 func mentionsAny(n ast.Node, names map[string]bool) bool {
